@@ -8,7 +8,7 @@ for id in $ids; do
   if [ -n "$(git -C /repo status --porcelain --untracked-files=no)" ]; then echo "/repo dirty"; exit 9; fi
   git -C /repo apply /verif/seeded/$id/patch.diff || { echo "$id apply-failed" >> $OUT; continue; }
   t0=$(date +%s)
-  prop=${id#r2_}
+  prop=${id#r[0-9]_}
   ./vcheck $prop > /tmp/matrix_$id.log 2>&1; rc=$?
   git -C /repo checkout -- .
   viol=$(grep -c '^VIOLATION' /tmp/matrix_$id.log)
